@@ -1,10 +1,10 @@
-"""C09 jq255e / jq255s Schnorr verification glue on the real optimized IR with
+"""C09 jq255e / jq255s / GLS254 Schnorr verification glue on the real optimized IR with
 contract stubs at cut-point functions (engine L; see props/glue.py, C07).
 
 accept <=> len(sig) = 48, s = sig[16..48] is a canonical scalar, and
            BLAKE2s256(encode(R) || pk_enc || tag || data)[0..16] == sig[0..16]
            with R = [s]B - [c]Q computed as (-Q).mul128_add_mulgen_vartime(c, s),
-           c = little-endian u128 of sig[0..16], tag = 0x52 (raw data) or 0x48 || name || 0x00.
+           c = little-endian u128 of sig[0..16] (GLS254: the two 64-bit halves c0, c1 of c0 + c1*mu), tag = 0x52 (raw data) or 0x48 || name || 0x00.
 Stubs: Point::set_decode, Scalar::set_decode32, set_mul128_add_mulgen_vartime,
 Point::encode, BLAKE2s compression function (uninterpreted)."""
 import time
@@ -18,8 +18,9 @@ from . import fields as F
 from . import glue
 from .lhelp import sym_run, rng, hexl, _feasible, Path
 
-CURVES = {"jq255e": "crate::jq255e", "jq255s": "crate::jq255s"}
-RORD = {"jq255e": F.RJQE, "jq255s": F.RJQS}
+CURVES = {"jq255e": "crate::jq255e", "jq255s": "crate::jq255s", "gls254": "crate::gls254"}
+MMFN = {"jq255e": "set_mul128_add_mulgen_vartime", "jq255s": "set_mul128_add_mulgen_vartime", "gls254": "set_mul64mu_add_mulgen_vartime"}
+RORD = {"jq255e": F.RJQE, "jq255s": F.RJQS, "gls254": F.RGLS}
 B2S_W = [32] * 8 + [8] * 64 + [64, 8]
 B2S_IV = [0x6A09E667, 0xBB67AE85, 0x3C6EF372, 0xA54FF53A, 0x510E527F, 0x9B05688C, 0x1F83D9AB, 0x5BE0CD19]
 
@@ -67,8 +68,11 @@ def drivers(shapes):
                              "        let sg = k.sign_seeded(&[], %s, &data[..]);\n"
                              "        let mut cb = [0u8; 16]; cb.copy_from_slice(&sg[0..16]);\n        let c = u128::from_le_bytes(cb);\n"
                              "        let (s, _) = <%s::Scalar>::decode32(&sg[16..48]);\n"
-                             "        let r = (-k.public_key.point).mul128_add_mulgen_vartime(c, &s);\n"
-                             "        *pk = k.public_key.encode(); *sig = sg; *renc = r.encode();" % (mod, mod, mod, hn, mod)))
+                             "        let r = %s;\n"
+                             "        *pk = k.public_key.encode(); *sig = sg; *renc = r.encode();"
+                             % (mod, mod, mod, hn, mod,
+                                "(-k.public_key.point).mul64mu_add_mulgen_vartime(c as u64, (c >> 64) as u64, &s)" if curve == "gls254"
+                                else "(-k.public_key.point).mul128_add_mulgen_vartime(c, &s)")))
     return ds
 
 
@@ -133,7 +137,7 @@ def install(ex, rec, curve, module):
             ex_.store(Ptr(argv[0].obj, argv[0].off + 8 * i), 8, w)
         rec.calls.append(("mulmul", {"P": pt, "u": uw, "v": v, "res": res}))
         return None
-    ex.add_call_hook(r"%s.*Point.*set_mul128_add_mulgen_vartime" % curve, h_mm)
+    ex.add_call_hook(r"%s.*Point.*%s" % (curve, MMFN[curve]), h_mm)
 
     def h_enc(ex_, name, argv, rty):
         pt = ex_.read_words(argv[1], 16, 8)
@@ -444,7 +448,8 @@ def _confirm(ob, built, drv, shape, problems, secs, nq):
 
 
 QUICK = [("jq255e", 48, 0, 8), ("jq255e", 47, 0, 24), ("jq255e", 49, 0, 24), ("jq255s", 49, 0, 24), ("jq255e", 48, 3, 8), ("jq255e", 48, 0, 0),
-         ("jq255e", 48, 0, 70), ("jq255s", 48, 0, 8), ("jq255s", 48, 6, 32), ("jq255s", 0, 0, 0)]
+         ("jq255e", 48, 0, 70), ("jq255s", 48, 0, 8), ("jq255s", 48, 6, 32), ("jq255s", 0, 0, 0),
+         ("gls254", 48, 0, 8), ("gls254", 48, 4, 24), ("gls254", 49, 0, 24)]
 THOROUGH = QUICK + [("jq255e", 48, n, d) for n in (1, 8) for d in (0, 1, 63, 64, 65)] + [("jq255s", 48, 0, d) for d in (1, 64, 129)]
 
 
@@ -482,5 +487,5 @@ def run(tier, only=None):
                          "Point::encode": "fresh 32 bytes (C06)",
                          "Blake2s::process_block": "uninterpreted compression function (C17)"},
                   assumptions=["the stubs' contracts are decided by the checks named in `stubs`"],
-                  outside=["GLS254 signature verification (c0 + c1*mu multiplier variant)", "signing functions: not posed",
+                  outside=["signing functions: not posed",
                            "that -Q is the group negation (C03): only 'derived from the decoded key alone' is checked structurally"])
